@@ -164,6 +164,26 @@ Eval vm_compute in (length res, length (filter (fun r => negb (fst r)) res), len
                        "stream (ratios on ceil/floor boundaries); every field of every list checked (bounding box, exact minimum pairwise distance, ordering); non-trivial = one field")
     chk.sample({"case": cases[0], "fields": sum(len(l) for l in outs[0].get("facts", []))})
     chk.cov["trusted_base"] = ["fingerprints (count, sums of x, y, x^2, y^2, xy, first and last point) identify a field in the comparison with the generated functions"]
+    # ---- whole designs through the manager (the way a user sets the land up): the returned field lies on the length x width land
+    from configs import cfg
+    lands = [("RECTANGLE", 44.0, 23.0), ("BIRECTANGLE", 23.0, 44.0), ("NEARSQUARE", 30.0, 30.0), ("BIZONEDRECTANGLE", 42.0, 26.0)]
+    if not quick:
+        lands += [("RECTANGLE", 23.0, 44.0), ("BIRECTANGLE", 44.0, 23.0), ("BIZONEDRECTANGLE", 26.0, 42.0)]
+    cfgs = []
+    for m, L, W in lands:
+        go = {"length": L} if m == "NEARSQUARE" else {"length": L, "width": W}
+        cfgs.append(cfg(m, months=12, loads={"kind": "balanced", "scale": 26000.0, "seed": 4}, geom_over=go))
+    for (m, L, W), r in zip(lands, e2e_runs(cfgs)):
+        if not r.get("ok"):
+            chk.notes.append({"design_run": m, "exc": r.get("exc"), "msg": r.get("msg")})
+            continue
+        chk.cov["evaluations"] += 1
+        W_ = L if m == "NEARSQUARE" else W
+        xs = [p_[0] for p_ in r["coords"]]
+        ys = [p_[1] for p_ in r["coords"]]
+        if min(xs) < -1e-9 or min(ys) < -1e-9 or max(xs) > L + 1e-9 or max(ys) > W_ + 1e-9:
+            chk.violation("design-land", r["cfg"], {"boreholes": r["nbh"], "x_range": [min(xs), max(xs)], "y_range": [min(ys), max(ys)]},
+                          f"every borehole of the returned field inside the land: 0 <= x <= length = {L}, 0 <= y <= width = {W_}")
     return chk.finish(assumptions=["float stream compared with 1e-9 m tolerance; theorems are about exact rationals"])
 
 
